@@ -44,7 +44,9 @@ Mk == [k |-> "mark"]
 Ma(b) == [k |-> "math", after |-> b]
 Pn(v) == [k |-> "penalty", v |-> v]
 HB(var, l) == IF var = 0 THEN [k |-> "hbox", h |-> 0, w |-> 0, d |-> 0, s |-> 0, gr |-> 0, go |-> 0, list |-> l]
-              ELSE [k |-> "hbox", h |-> 1, w |-> 2, d |-> 3, s |-> -4, gr |-> -32768, go |-> 2, list |-> l]
+              ELSE [k |-> "hbox", h |-> 1, w |-> 2, d |-> 3, s |-> -4, gr |-> 32768, go |-> 2, list |-> l]
+\* a shrinking box: the glue ratio is negative
+HBneg == [k |-> "hbox", h |-> 0, w |-> 65536, d |-> 0, s |-> 0, gr |-> -21845, go |-> 1, list |-> <<>>]
 VB(var, l) == IF var = 0 THEN [k |-> "vbox", h |-> 0, w |-> 0, d |-> 0, s |-> 0, list |-> l]
               ELSE [k |-> "vbox", h |-> 5, w |-> 6, d |-> 7, s |-> 8, list |-> l]
 Dc(pre, post, n) == [k |-> "disc", pre |-> pre, post |-> post, n |-> n]
@@ -63,7 +65,7 @@ H0 == Common0 \cup HV0 \cup Chars0 \cup {Lg}
 V0 == Common0 \cup HV0
 D0 == Common0 \cup Chars0 \cup {Lg}
 
-Boxes(HS, VS, n) == {HB(var, l) : var \in {0, 1}, l \in ListsUpTo(HS, n)}
+Boxes(HS, VS, n) == {HBneg} \cup {HB(var, l) : var \in {0, 1}, l \in ListsUpTo(HS, n)}
                     \cup {VB(var, l) : var \in {0, 1}, l \in ListsUpTo(VS, n)}
 Inserts(VS, n) == {In(var, l) : var \in {0, 1}, l \in ListsUpTo(VS, n)}
 \* discretionaries: both lists vary at depth 1; deeper, one of them is empty
@@ -155,13 +157,17 @@ InvOkMeansEachParameterOnce ==
 InvPositionalFirst ==
   Res.errs = <<>> => \A i, j \in 1..Len(x.c.args) : (x.c.args[i].key # <<>> /\ x.c.args[j].key = <<>>) => j < i
 InvRenderReads == x.m = "h" => \A st \in 0..3 : RenderReads(Prog, st)
+InvFormat == x.m = "h" => \A st \in 0..3 : FormatLaws(Render(Prog, st)) /\ FormatCanonical(Prog, st)
 
 ValHash(v) == v.n + v.o + Len(v.s) + Len(v.p)
 CallHash(c) == Len(c.args) + (IF c.args = <<>> THEN 0 ELSE ValHash(c.args[Len(c.args)].v) + Len(c.args[1].key))
-EmitCall == LET st == CallHash(x.c) % 4 IN
-            (CallHash(x.c) + Len(x.c.fn)) % Sample # 0 \/
-            PrintT(<<"REPLAY", ToJson([t |-> "prog", m |-> x.m, p |-> Prog, st |-> st,
-                                       text |-> Render(Prog, st), want |-> Res])>>)
+\* a call in a discretionary list is replayed inside disc(pre_break=[...]) (no public entry point parses one)
+EmitCall == LET st   == CallHash(x.c) % 4
+                prog == IF x.m = "d" THEN <<Call(CP.disc, <<Arg(CP.pre_break, VList(Prog))>>)>> ELSE Prog
+                m    == IF x.m = "d" THEN "h" ELSE x.m
+            IN (CallHash(x.c) + Len(x.c.fn)) % Sample # 0 \/
+               PrintT(<<"REPLAY", ToJson([t |-> "prog", m |-> m, p |-> prog, st |-> st,
+                                          text |-> Render(prog, st), want |-> FromProg(m, prog)])>>)
 
 ---------------------------------------------------------------------------
 (* text *)
@@ -178,6 +184,7 @@ InvRelex == LET ks == NoComments(Lex(x)) IN
                Len(k2) = Len(ks) /\ \A i \in 1..Len(ks) : TokVal(k2[i]) = TokVal(ks[i])
 \* a text that reads as a program reads as the same program in every layout
 InvReadRender == LET r == Read(x) IN r.ok => \A st \in 0..3 : RenderReads(r.p, st)
+InvFormatText == FormatLaws(x)
 \* a comment put between two tokens never changes what a text reads as
 InvCommentsAreBlank ==
   LET ks == Lex(x) IN
